@@ -1,1 +1,2 @@
 pub mod wgl;
+pub mod promtext;
